@@ -1,6 +1,8 @@
 package rules
 
 import (
+	"fmt"
+	"os"
 	"go/token"
 	"regexp"
 	"strconv"
@@ -171,6 +173,22 @@ func checkC02(c *Ctx) {
 			fn := st.Parent()
 			sites := p.In[fn]
 			okVal = len(sites) > 0
+			// the resolver may be called by the function that appends (the vote step written in the handler)
+			opq := ana.PVOpt{Opaque: func(d ana.CalleeDesc) bool { return d.Recv != "ValAddress" && d.Recv != "AccAddress" }}
+			local := false
+			ll := p.Leaves(call.Call.Args[1], opq)
+			for _, rc := range c.resolverCalls(ana.Outermost(fn)) {
+				for _, vals := range ll.Vals {
+					for _, v := range vals {
+						if v == ssa.Value(rc) {
+							local = true
+						}
+					}
+				}
+			}
+			if local {
+				okVal, sites = true, nil
+			}
 			for _, e := range sites {
 				l := p.LeavesAt(call.Call.Args[1], e.Site, ana.PVOpt{Opaque: func(d ana.CalleeDesc) bool { return d.Recv != "ValAddress" && d.Recv != "AccAddress" }})
 				found := false
@@ -205,7 +223,7 @@ func checkC02(c *Ctx) {
 
 	// ---- C02.quorum-guard -----------------------------------------------------
 	r.Min("C02.quorum-guard", 3)
-	c.checkQuorumGuard("C02.quorum-guard", reach, func(f *ssa.Function) bool { return c.isProcessFn(f, "mhub2") }, "Votes", 66, 100)
+	c.checkQuorumGuard("C02.quorum-guard", reach, "mhub2", "Votes", 66, 100)
 
 	// ---- C02.identity (clauses of C14) ------------------------------------------
 	// votes are pooled per claim identifier: the quorum is a quorum for one event only if reports that differ in
@@ -245,14 +263,7 @@ func checkC02(c *Ctx) {
 				isVote = true
 			}
 		}
-		isTally := false
-		ana.Calls(f, func(site ssa.CallInstruction, d ana.CalleeDesc) {
-			for _, callee := range p.Callees(site) {
-				if c.isProcessFn(callee, "mhub2") {
-					isTally = true
-				}
-			}
-		})
+		isTally := len(c.procSites(f, "mhub2")) > 0
 		switch {
 		case isVote:
 			r.Ok("C02.votes-writers", fname(f), p.Pos(f.Pos()), "role vote")
@@ -306,6 +317,40 @@ func (c *Ctx) isProcessFn(f *ssa.Function, mod string) bool {
 		}
 	})
 	return cache && c.invokesHandler(f, 1) != nil
+}
+
+// ownStoreWrites: f itself (not its callees) writes the store.
+func (c *Ctx) ownStoreWrites(f *ssa.Function) bool {
+	for _, e := range c.Effects(f) {
+		if e.In == f && e.Kind == "store" && e.Store.IsWrite() {
+			return true
+		}
+	}
+	return false
+}
+
+// procSites: where f starts applying an event / attestation: its calls of (pure) process functions, or, when f
+// itself opens the cached context and runs the handler in it next to its own bookkeeping writes, its
+// CacheContext call.  (A function that only wraps the handler call in a cached context is a process function;
+// one that also keeps the books is the apply function with the process step written in place.)
+func (c *Ctx) procSites(f *ssa.Function, mod string) []ssa.Instruction {
+	var out []ssa.Instruction
+	ana.Calls(f, func(site ssa.CallInstruction, d ana.CalleeDesc) {
+		for _, callee := range c.P.Callees(site) {
+			if callee != f && c.isProcessFn(callee, mod) && !c.ownStoreWrites(callee) {
+				out = append(out, site.(ssa.Instruction))
+				return
+			}
+		}
+	})
+	if len(out) == 0 && c.ownStoreWrites(f) && c.isProcessFn(f, mod) {
+		ana.Calls(f, func(site ssa.CallInstruction, d ana.CalleeDesc) {
+			if d.Name == "CacheContext" {
+				out = append(out, site.(ssa.Instruction))
+			}
+		})
+	}
+	return out
 }
 
 // checkContiguity: the Votes append is guarded by nonce == last+1 || last == 0 and followed by the nonce store.
@@ -420,29 +465,30 @@ func (c *Ctx) checkContiguity(rule string, st *ssa.Store) {
 				}
 			}
 		}
+		// (the validator may be a local result rather than a parameter: follow the operands)
+		if !appVal && operandReaches(call.Call.Args[1], valOfRead, 8) {
+			appVal = true
+		}
+	}
+	if os.Getenv("MHUBSA_DEBUGC02") != "" {
+		fmt.Fprintf(os.Stderr, "DEBUG same-validator: fn=%s lastCall=%v valOfRead=%v sameVal=%v appVal=%v nonceSets=%d\n", fname(fn), lastCall, valOfRead, sameVal, appVal, len(nonceSets))
+		for _, ns := range nonceSets {
+			fmt.Fprintf(os.Stderr, "   nonceSet %v args=%v\n", ns, ns.(ssa.CallInstruction).Common().Args)
+		}
 	}
 	r.Check(sameVal && appVal, rule, "same-validator", c.pos(st), "nonce read, appended vote and nonce store all use the same validator value", "the contiguity read, the appended vote and the nonce store do not use one and the same validator")
 }
 
 // checkQuorumGuard: the apply call is guarded by votePower >= required.
-func (c *Ctx) checkQuorumGuard(rule string, reach map[*ssa.Function]bool, isProcess func(*ssa.Function) bool, votesField string, wantA, wantB int64) {
+func (c *Ctx) checkQuorumGuard(rule string, reach map[*ssa.Function]bool, mod string, votesField string, wantA, wantB int64) {
 	p, r := c.P, c.R
 	found := 0
 	for _, f := range sortedFuncs(reach) {
 		if p.L.IsGenerated(f.Pos()) {
 			continue
 		}
-		ana.Calls(f, func(site ssa.CallInstruction, d ana.CalleeDesc) {
-			isP := false
-			for _, callee := range p.Callees(site) {
-				if isProcess(callee) {
-					isP = true
-				}
-			}
-			if !isP {
-				return
-			}
-			in := site.(ssa.Instruction)
+		for _, in := range c.procSites(f, mod) {
+			in := in
 			found++
 			var gte *ssa.Call
 			var powV, reqV ssa.Value
@@ -471,11 +517,11 @@ func (c *Ctx) checkQuorumGuard(rule string, reach map[*ssa.Function]bool, isProc
 			ok, chain := p.GuardedInter(in, 3, atom)
 			if !ok {
 				r.Bad(rule, "guard:"+fname(f), c.pos(in), "the event/attestation is applied on a path not guarded by votePower >= required (power from GetLastValidatorPower, requirement from GetLastTotalPower)", chain...)
-				return
+				continue
 			}
 			r.Ok(rule, "guard:"+fname(f), c.pos(in), "apply call guarded by votePower.GTE(required)")
 			if gte == nil {
-				return
+				continue
 			}
 			// every state write of the apply function sits behind the same quorum test
 			for _, e := range c.Effects(f) {
@@ -495,7 +541,7 @@ func (c *Ctx) checkQuorumGuard(rule string, reach map[*ssa.Function]bool, isProc
 			// accumulation: phi(0, phi.Add(NewInt(GetLastValidatorPower(vote)))) over the record's votes
 			okAcc, why := c.votePowerAccumulates(powV, votesField)
 			r.Check(okAcc, rule, "accumulate:"+fname(f), c.pos(gte), "votePower starts at 0 and adds exactly one GetLastValidatorPower(vote) per iteration over the record's votes", why)
-		})
+		}
 	}
 	if found == 0 {
 		r.Undecided(rule, "apply-call", "-", "no call of the event/attestation process function found")
@@ -600,4 +646,49 @@ func (c *Ctx) checkNonceWriters(rule string, appends []*ssa.Store) {
 		r.Check(isVote || c.isGenesisImport(f), rule, "nonce-writer:"+fname(f), p.Pos(f.Pos()), "the per-validator event nonce is written by the vote function / genesis import",
 			"the per-validator last event nonce is written outside the vote function and the genesis import: a validator whose counter is rewound can vote again for a nonce it already voted for")
 	}
+}
+
+// operandReaches: target is among the values v is computed from within its own function (calls are followed
+// through their arguments).
+func operandReaches(v, target ssa.Value, depth int) bool {
+	seen := map[ssa.Value]bool{}
+	var walk func(x ssa.Value, d int) bool
+	walk = func(x ssa.Value, d int) bool {
+		if x == nil || d < 0 || seen[x] {
+			return false
+		}
+		if x == target {
+			return true
+		}
+		seen[x] = true
+		if a, isAlloc := x.(*ssa.Alloc); isAlloc {
+			// a local (e.g. the array behind a variadic argument): what is stored into it
+			for _, ref := range *a.Referrers() {
+				switch y := ref.(type) {
+				case *ssa.Store:
+					if y.Addr == ssa.Value(a) && walk(y.Val, d-1) {
+						return true
+					}
+				case *ssa.IndexAddr, *ssa.FieldAddr:
+					for _, rr := range *y.(ssa.Value).Referrers() {
+						if st, ok := rr.(*ssa.Store); ok && st.Addr == y.(ssa.Value) && walk(st.Val, d-1) {
+							return true
+						}
+					}
+				}
+			}
+			return false
+		}
+		in, ok := x.(ssa.Instruction)
+		if !ok {
+			return false
+		}
+		for _, op := range in.Operands(nil) {
+			if op != nil && *op != nil && walk(*op, d-1) {
+				return true
+			}
+		}
+		return false
+	}
+	return walk(v, depth)
 }
